@@ -10,9 +10,9 @@ item with key `K` on the right, whichever side drives the loop.  The proof separ
 generic loop `loopK` (matched pairs, left leftovers in place, right leftovers at the end) and shows by
 insertion lemmas that the loop driven by the other side visits the same pairs.
 
-What is *not* symmetric is the place of a type clash found inside a keyed list (`prefix[i]` with the index of
-the driving side only, finding C09-b): the relation `SwV` therefore compares `difftypes` entries as pairs of
-values; with the types flag off there are no such entries and the full mirror statement follows.
+With fix C09-b a type clash found inside a keyed list is reported at `prefix[i]<>[j]` like every other pair, so
+the `difftypes` entries are mirrored with their places too: the relation `SwV` is the full mirror statement,
+for every flag record.
 -/
 namespace N0.Compare
 open N0
@@ -22,22 +22,22 @@ set_option linter.unusedVariables false
 
 /-! ### the relation -/
 
-/-- `r'` is the mirror image of `r`; type-clash entries are compared as value pairs (their place is one-sided) -/
+/-- `r'` is the mirror image of `r`, as multisets of entries -/
 structure SwV (r r' : Res) : Prop where
   ne : r'.notEqual.Perm r.mirror.notEqual
   su : r'.selfUnique.Perm r.mirror.selfUnique
   ou : r'.otherUnique.Perm r.mirror.otherUnique
-  dt : (r'.diffTypes.map (fun e => (e.l, e.r))).Perm (r.diffTypes.map (fun e => (e.r, e.l)))
+  dt : r'.diffTypes.Perm r.mirror.diffTypes
   diffs : r'.diffs = r.diffs
 
 theorem SwV.of_eq {r r' : Res}
     (h1 : r'.notEqual = r.notEqual.map (fun e => ⟨mirrorPath e.path, e.r, e.l, e.kind, e.delta⟩))
     (h2 : r'.selfUnique = r.otherUnique.map (fun e => ⟨mirrorPath e.path, e.v⟩))
     (h3 : r'.otherUnique = r.selfUnique.map (fun e => ⟨mirrorPath e.path, e.v⟩))
-    (h4 : r'.diffTypes.map (fun e => (e.l, e.r)) = r.diffTypes.map (fun e => (e.r, e.l)))
+    (h4 : r'.diffTypes = r.diffTypes.map (fun e => ⟨mirrorPath e.path, e.r, e.l⟩))
     (h5 : r'.diffs = r.diffs) : SwV r r' :=
   ⟨by rw [h1]; exact .refl _, by rw [h2]; exact .refl _, by rw [h3]; exact .refl _,
-   by rw [h4], h5⟩
+   by rw [h4]; exact .refl _, h5⟩
 
 theorem swv_empty : SwV Res.empty Res.empty := SwV.of_eq rfl rfl rfl rfl rfl
 
@@ -46,19 +46,19 @@ theorem swv_append {a a' b b' : Res} (h : SwV a a') (h' : SwV b b') : SwV (a ++ 
   · simp only [append_notEqual, Res.mirror, List.map_append]; exact h.ne.append h'.ne
   · simp only [append_selfUnique, append_otherUnique, Res.mirror, List.map_append]; exact h.su.append h'.su
   · simp only [append_selfUnique, append_otherUnique, Res.mirror, List.map_append]; exact h.ou.append h'.ou
-  · simp only [append_diffTypes, List.map_append]; exact h.dt.append h'.dt
+  · simp only [append_diffTypes, Res.mirror, List.map_append]; exact h.dt.append h'.dt
   · simp only [append_diffs, h.diffs, h'.diffs]
 
 theorem SwV.congr_right {r r' r'' : Res} (h : SwV r r') (h' : CorePerm r'' r') : SwV r r'' :=
   ⟨h'.ne.trans h.ne, h'.su.trans h.su, h'.ou.trans h.ou,
-   (h'.dt.map (fun e => (e.l, e.r))).trans h.dt, h'.diffs.trans h.diffs⟩
+   h'.dt.trans h.dt, h'.diffs.trans h.diffs⟩
 
 theorem SwV.congr_left {r0 r r' : Res} (h : SwV r r') (h' : CorePerm r r0) : SwV r0 r' := by
-  refine ⟨h.ne.trans ?_, h.su.trans ?_, h.ou.trans ?_, h.dt.trans (h'.dt.map (fun e => (e.r, e.l))),
-    h.diffs.trans h'.diffs⟩
+  refine ⟨h.ne.trans ?_, h.su.trans ?_, h.ou.trans ?_, h.dt.trans ?_, h.diffs.trans h'.diffs⟩
   · simp only [Res.mirror]; exact h'.ne.map _
   · simp only [Res.mirror]; exact h'.ou.map _
   · simp only [Res.mirror]; exact h'.su.map _
+  · simp only [Res.mirror]; exact h'.dt.map _
 
 /-- the path filters do not distinguish `[i]<>[j]` from `[j]<>[i]` -/
 structure MirrorInv (cfg : Cfg) : Prop where
@@ -84,9 +84,10 @@ def ActSwV (x y : Val) : Act → Act → Prop
   | .descend, .descend => tyOf x = tyOf y
   | _, _ => False
 
-/-- an item pair: the not-equal place is mirrored; the type-clash place is arbitrary on both sides -/
-theorem swk_classifyItem {cfg : Cfg} (htr : cfg.tr = []) (p p' pne pdt pdt' : Path) (sa oa sa' oa' x y : Val) :
-    ActSwV x y (classifyItem cfg p pne pdt sa oa x y) (classifyItem cfg p' (mirrorPath pne) pdt' sa' oa' y x) := by
+/-- an item pair: both places are mirrored -/
+theorem swk_classifyItem {cfg : Cfg} (htr : cfg.tr = []) (p p' pne pdt : Path) (sa oa sa' oa' x y : Val) :
+    ActSwV x y (classifyItem cfg p pne pdt sa oa x y)
+      (classifyItem cfg p' (mirrorPath pne) (mirrorPath pdt) sa' oa' y x) := by
   unfold classifyItem
   simp only [transformAt_noTr htr, id]
   by_cases ht : tyOf x = tyOf y
@@ -413,7 +414,7 @@ theorem swk_loopK_swap (f f' : Nat → Val → Nat → Val → Except PyErr Res)
 
 /-- the result of the pair (left item `x` at `i`, right item `y` at `j`) -/
 def kf (cfg : Cfg) (p : Path) (sa oa : Val) : Nat → Val → Nat → Val → Except PyErr Res :=
-  fun i x j y => itemRes cfg p (p ++ [if i = j then PSeg.idx i else PSeg.idx2 i j]) (p ++ [.idx i]) sa oa x y
+  fun i x j y => itemRes cfg p (p ++ [if i = j then PSeg.idx i else PSeg.idx2 i j]) (p ++ [if i = j then PSeg.idx i else PSeg.idx2 i j]) sa oa x y
 
 def kg1 (p : Path) (e : KE) : Res := { diffs := 1, selfUnique := [⟨p ++ [.idx e.2.1], e.2.2⟩] }
 def kg2 (p : Path) (e : KE) : Res := { diffs := 1, otherUnique := [⟨p ++ [.idx e.2.1], e.2.2⟩] }
@@ -549,7 +550,7 @@ theorem swk_recordKey_path {cfg : Cfg} (htr : cfg.tr = []) (p q : Path) (kvs : L
 
 theorem swk_keyOf_path {cfg : Cfg} (htr : cfg.tr = []) (p q : Path) (x : Val) :
     keyOf cfg p x = keyOf cfg q x := by
-  cases x <;> simp only [keyOf]
+  cases x <;> simp only [keyOf, transformAt_noTr htr]
   rw [swk_recordKey_path htr p q]
 
 theorem swk_keysOf_path {cfg : Cfg} (htr : cfg.tr = []) (p q : Path) :
@@ -598,13 +599,13 @@ theorem swk_item (cfg : Cfg) (htr : cfg.tr = []) (p : Path) (i j : Nat) (sa oa s
       mirrorPath p ++ [if j = i then PSeg.idx j else PSeg.idx2 j i] := by
     rw [swk_mirror_snoc, swk_mirror_seg]
   have hcs := swk_classifyItem htr p (mirrorPath p) (p ++ [if i = j then PSeg.idx i else PSeg.idx2 i j])
-    (p ++ [.idx i]) (mirrorPath p ++ [.idx j]) sa oa sa' oa' x y
+    (p ++ [if i = j then PSeg.idx i else PSeg.idx2 i j]) sa oa sa' oa' x y
   rw [hpath] at hcs
   simp only [kf, itemRes] at h ⊢
-  cases hcl : classifyItem cfg p (p ++ [if i = j then PSeg.idx i else PSeg.idx2 i j]) (p ++ [.idx i]) sa oa x y with
+  cases hcl : classifyItem cfg p (p ++ [if i = j then PSeg.idx i else PSeg.idx2 i j]) (p ++ [if i = j then PSeg.idx i else PSeg.idx2 i j]) sa oa x y with
   | emit ra s =>
     cases hcl' : classifyItem cfg (mirrorPath p) (mirrorPath p ++ [if j = i then PSeg.idx j else PSeg.idx2 j i])
-        (mirrorPath p ++ [.idx j]) sa' oa' y x with
+        (mirrorPath p ++ [if j = i then PSeg.idx j else PSeg.idx2 j i]) sa' oa' y x with
     | emit ra' s' =>
       rw [hcl, hcl'] at hcs
       rw [hcl] at h
@@ -614,7 +615,7 @@ theorem swk_item (cfg : Cfg) (htr : cfg.tr = []) (p : Path) (i j : Nat) (sa oa s
     | descend => rw [hcl, hcl'] at hcs; exact hcs.elim
   | descend =>
     cases hcl' : classifyItem cfg (mirrorPath p) (mirrorPath p ++ [if j = i then PSeg.idx j else PSeg.idx2 j i])
-        (mirrorPath p ++ [.idx j]) sa' oa' y x with
+        (mirrorPath p ++ [if j = i then PSeg.idx j else PSeg.idx2 j i]) sa' oa' y x with
     | emit ra' s' => rw [hcl, hcl'] at hcs; exact hcs.elim
     | descend =>
       rw [hcl, hcl'] at hcs
@@ -883,25 +884,21 @@ theorem swk_noDiffTypes (cfg : Cfg) (ht : cfg.fl.types = false) (a b : Val) (r :
     repeat' split
     all_goals simp_all [ActP, Res.empty]
 
-/-- **swap symmetry of the keyed entry point** (`C09_swap_stmt` without its hypothesis on the item keys): with
-the types flag off, `b.compare(a)` is the mirror image of `a.compare(b)` as multisets of entries -/
+/-- **swap symmetry of the keyed entry point, every flag record** (`C09_swap_stmt` without its hypotheses on the
+item keys and on the types flag): `b.compare(a)` is the mirror image of `a.compare(b)` as multisets of entries -/
 theorem swap_keyed (cfg : Cfg) (a b : Val) (r : Res) (htr : cfg.tr = []) (hd : cfg.direct = false)
-    (hty : cfg.fl.types = false)
     (hex : ∀ p, excluded cfg (mirrorPath p) = excluded cfg p) (hon : ∀ p, onlyOk cfg (mirrorPath p) = onlyOk cfg p)
     (hw : wf a = true) (hw' : wf b = true) (h : compareTop cfg a b = .ok r) :
     ∃ r', compareTop cfg b a = .ok r' ∧
       (r'.notEqual.Perm r.mirror.notEqual ∧ r'.selfUnique.Perm r.mirror.selfUnique ∧
        r'.otherUnique.Perm r.mirror.otherUnique ∧ r'.diffTypes.Perm r.mirror.diffTypes ∧ r'.diffs = r.diffs) := by
   obtain ⟨r', hr', hsw⟩ := compareTop_swap_keyed cfg a b r htr hd ⟨hex, hon⟩ hw hw' h
-  refine ⟨r', hr', hsw.ne, hsw.su, hsw.ou, ?_, hsw.diffs⟩
-  rw [swk_noDiffTypes cfg hty b a r' hr']
-  simp only [Res.mirror, swk_noDiffTypes cfg hty a b r h, List.map_nil]
-  exact .refl _
+  exact ⟨r', hr', hsw.ne, hsw.su, hsw.ou, hsw.dt, hsw.diffs⟩
 
 /-- the statement kept in `CompareSwap.lean` holds (its `keysOK` hypotheses are not needed) -/
 theorem swap_keyed_stmt_holds : swap_keyed_stmt := by
-  intro cfg a b r htr hd hty hex hon hw hw' _ _ h
-  exact swap_keyed cfg a b r htr hd hty hex hon hw hw' h
+  intro cfg a b r htr hd _ hex hon hw hw' _ _ h
+  exact swap_keyed cfg a b r htr hd hex hon hw hw' h
 
 /-- default options: the path filters are trivially mirror-invariant -/
 theorem swk_mirrorInv_noPathOpts {cfg : Cfg} (h : NoPathOpts cfg) : MirrorInv cfg :=
@@ -915,15 +912,18 @@ theorem verdict_swap_keyed (cfg : Cfg) (a b : Val) (r : Res) (htr : cfg.tr = [])
   have hdf : r'.diffs = r.diffs := hsw.diffs
   simp [verdict, h, hr', hdf]
 
-/-- with the types flag ON the place of a clash found inside a keyed list is not mirrored (finding C09-b):
-`['1']` vs `[None, 1]` reports the clash at `[0]`, the swapped run at `[1]` -/
-theorem swap_keyed_types_cex :
-    (compareTop (Cfg.default ⟨true, false, false, false, false, true⟩ false)
-        (.list .n0 [.str ['1']]) (.list .n0 [.none, .int 1])).map (fun r => r.diffTypes.map (·.path))
-      = .ok [[.idx 0]] ∧
-    (compareTop (Cfg.default ⟨true, false, false, false, false, true⟩ false)
-        (.list .n0 [.none, .int 1]) (.list .n0 [.str ['1']])).map (fun r => r.diffTypes.map (·.path))
-      = .ok [[.idx 1]] := by
+/-- with the types flag ON the place of a clash found inside a keyed list is mirrored too (fix C09-b): the
+record `{i: '1'}` against `[{}, dict(i='1')]` with `composite_key='i'` reports the clash at `[0]<>[1]`, the swapped
+run at `[1]<>[0]` (before the fix: `[0]` and `[1]`) -/
+theorem swap_keyed_types_example :
+    (compareTop { Cfg.default ⟨true, false, false, false, false, true⟩ false with ck := .one ['i'] }
+        (.list .n0 [.dict .n0 [(['i'], .str ['1'])]])
+        (.list .n0 [.dict .n0 [], .dict .plain [(['i'], .str ['1'])]])).map (fun r => r.diffTypes.map (·.path))
+      = .ok [[.idx2 0 1]] ∧
+    (compareTop { Cfg.default ⟨true, false, false, false, false, true⟩ false with ck := .one ['i'] }
+        (.list .n0 [.dict .n0 [], .dict .plain [(['i'], .str ['1'])]])
+        (.list .n0 [.dict .n0 [(['i'], .str ['1'])]])).map (fun r => r.diffTypes.map (·.path))
+      = .ok [[.idx2 1 0]] := by
   decide
 
 end N0.Compare
